@@ -18,8 +18,8 @@ for name in sorted(os.listdir(sd)):
     cmd = [sys.executable, os.path.join(VERIF, "tools", "seed_eval.py"), d, "--checks", ",".join(checks), "--property", prop, "--needs", meta.get("needs_to_manifest", ""), "--keep-as", name]
     p = subprocess.run(cmd, stdout=subprocess.PIPE, stderr=subprocess.STDOUT)
     out = p.stdout.decode()
-    if "PATCH DOES NOT APPLY" in out and meta.get("repo_head"):
-        p = subprocess.run(cmd + ["--base", meta["repo_head"]], stdout=subprocess.PIPE, stderr=subprocess.STDOUT)
-        out = p.stdout.decode()
+    # a patch that no longer applies is NOT evaluated on the older tree it was written for: the checks have learnt since to flag
+    # defects of that older tree (repaired meanwhile), which would be credited to the seeded change.  Re-express the patch instead
+    # (keep the original as patch.as-seeded.diff).
     print("==", name)
     print("\n".join(l[:200] for l in out.splitlines() if l.startswith(("demo", "tests", "CAUGHT", "PATCH")) or l[:3] in ("C%02d" % i for i in range(21))))
